@@ -1,0 +1,7 @@
+//go:build !verif
+
+package eventlogger
+
+import "context"
+
+func verifPoint(context.Context, string) {}
